@@ -72,6 +72,58 @@ def miri_judge(prop, out, fn, binname, agg):
     return j
 
 
+def end_to_end(prop, tier, seed, out, only_lines=None):
+    """The profiler while benchmarks run: loopdrv's global allocator is LogOuter<AllocProfiler<LogInner<System>>>, so every
+    request made inside and around timed sections (alloc, alloc_zeroed, realloc, dealloc scripts in calls, generators, drops,
+    also after a panic in the middle of a sample) passes both logging layers. C09: the online sandwich monitor must stay
+    silent. C10: the record stored for a sample must be the thread's operations between its two timestamps."""
+    from . import loopgen, loop_oracle as LO
+    bins = build.build("native", ["loopdrv"])
+    n = 240 if tier == "quick" else 6000
+    lines = [l for l in loopgen.gen_c02(tier, seed + 909) if "caops=" in l][:n]
+    lines += [l for l in loopgen.gen_c08_panic("quick", seed + 909)][: (40 if tier == "quick" else 400)]
+    if only_lines is not None:
+        lines = only_lines
+    shards = runner.run_parallel(bins["loopdrv"], lines, timeout=900)
+    st = {"loop_runs": 0, "sandwich_violations": 0, "zeroed_requests_in_samples": 0, "samples_compared": 0, "runs_with_panic": 0}
+    for sh in shards:
+        if not sh.conclusive:
+            out.inconclusive_shard("end-to-end shard of %d loop configs: done=%s rc=%s timeout=%s" % (len(sh.lines), sh.done, sh.returncode, sh.timed_out))
+        for run in sh.runs:
+            if not run.complete or run.overflow:
+                continue
+            st["loop_runs"] += 1
+            out.evaluations += 1
+            if run.status != "ok":
+                st["runs_with_panic"] += 1
+            an = LO.Analysis(run)
+            for tv in an.threads.values():
+                for w in tv.windows:
+                    st["zeroed_requests_in_samples"] += sum(1 for ev in w.inner if ev.kind == evlog.ALLOC_OP and (ev.a & 0xFF) == 1)
+            if prop == "C09":
+                if run.sandwich:
+                    st["sandwich_violations"] += run.sandwich
+                    codes = sorted({ev.a for ev in run.events if ev.kind == evlog.ONLINE_VIOLATION})
+                    out.violation("C09:not_transparent_while_benchmarking",
+                                  "%d requests did not pass the profiler 1:1 while a benchmark ran (monitor codes %s: 1 inner calls != 1, 2 arguments / method changed, "
+                                  "3 result changed, 4 re-entry, 5 inner call without request)" % (run.sandwich, codes), {"engine": "native", "bin": "loopdrv", "cfg": run.cfg_line})
+            elif not an.struct_errors:
+                vs, info = LO.check_c02(an)
+                st["samples_compared"] += info.get("samples_compared", 0)
+                for v in vs:
+                    if v.code == "alloc_figures_mismatch":
+                        out.violation("C10:per_sample_record", "the tally stored for a sample is not the thread's operations between its timestamps: " + v.msg,
+                                      {"engine": "native", "bin": "loopdrv", "cfg": run.cfg_line, "violation": v.to_json()})
+    out.extra["end_to_end"] = st
+    if only_lines is not None:
+        return
+    out.require("e2e_loop_runs", st["loop_runs"], 100)
+    if prop == "C09":
+        out.require("e2e_zeroed_requests_in_samples", st["zeroed_requests_in_samples"], 50)
+    else:
+        out.require("e2e_samples_compared", st["samples_compared"], 100)
+
+
 def check(prop, tier, seed, out):
     bins = build.build("native", ["allocdrv", "sandwichdrv"])
     agg_d, agg_s = {}, {}
@@ -81,6 +133,7 @@ def check(prop, tier, seed, out):
     judge(prop, shards, out, AO.check_sandwich, "native", "sandwichdrv", agg_s)
     out.extra["direct"] = agg_d
     out.extra["sandwich"] = agg_s
+    end_to_end(prop, tier, seed, out)
     out.require("scripted_ops", agg_d.get("ops", 0), 5000)
     if prop == "C09":
         out.require("calls_first_on_thread", agg_s.get("first_on_thread", 0), 50)
@@ -120,6 +173,11 @@ def check(prop, tier, seed, out):
 def replay(prop, rp, out):
     r = rp["first"]["replay"]
     binname = r.get("bin", "allocdrv")
+    if binname == "loopdrv":
+        # a panic earlier in the same process can matter (state left behind on the thread): replay with the panic plans in front
+        from . import loopgen
+        end_to_end(prop, "quick", rp.get("seed", 1), out, only_lines=loopgen.gen_c08_panic("quick", rp.get("seed", 1) + 909)[:6] + [r["cfg"]])
+        return
     fn = AO.check_direct if binname == "allocdrv" else AO.check_sandwich
     eng = r.get("engine", "native")
     if eng == "miri":
